@@ -202,6 +202,15 @@ impl PhiNode {
         /*@value*/ r matches Some(s) ==> *s == self.entry->0,
 //@ end
 
+//@ fn impl PhiNode :: fn entry_scalar_mut
+//@ spec
+    ensures
+        /*@some*/ (r is Some) == (old(self).entry is Some),
+        /*@value*/ r matches Some(s) ==> *s == old(self).entry->0 && final(self).entry == Some(*final(s)),
+        /*@none*/ r is None ==> final(self).entry is None,
+        /*@frame*/ final(self).out == old(self).out && final(self).incoming == old(self).incoming,
+//@ end
+
 //@ fn impl PhiNode :: fn out
 //@ spec
     ensures /*@field*/ *r == self.out,
